@@ -691,6 +691,17 @@ func (ex *Exec) callFunction(fn *ssa.Function, args []Value, bindings []Value) V
 	if ex.skipIntrinsicOnce == fn {
 		ex.skipIntrinsicOnce = nil
 	} else {
+		// a model written in the running harness' own package overrides an engine intrinsic
+		if ms, ok := ex.eng.models[key]; ok && !ex.modelDisabled(key) && ex.inModel == 0 {
+			for _, c := range ms {
+				if c.Pkg == ex.h.Fn.Pkg {
+					ex.noteStub("model:" + key)
+					ex.inModel++
+					defer func() { ex.inModel-- }()
+					return ex.callFunction(c, args, nil)
+				}
+			}
+		}
 		if in, ok := ex.eng.intrinsics[key]; ok {
 			return in(ex, fn, args)
 		}
@@ -700,7 +711,7 @@ func (ex *Exec) callFunction(fn *ssa.Function, args []Value, bindings []Value) V
 			}
 		}
 	}
-	if ms, ok := ex.eng.models[key]; ok {
+	if ms, ok := ex.eng.models[key]; ok && !ex.modelDisabled(key) {
 		// a model written in the package of the running harness takes precedence
 		m := ms[0]
 		for _, c := range ms {
@@ -718,6 +729,17 @@ func (ex *Exec) callFunction(fn *ssa.Function, args []Value, bindings []Value) V
 		return nil
 	}
 	return ex.execFunction(fn, args, bindings)
+}
+
+// modelDisabled: the harness directive nomodel=<substring>[,<substring>] keeps
+// the named functions real for that harness although the package has a model.
+func (ex *Exec) modelDisabled(key string) bool {
+	for _, s := range ex.noModels {
+		if s != "" && strings.Contains(key, s) {
+			return true
+		}
+	}
+	return false
 }
 
 func (ex *Exec) execFunction(fn *ssa.Function, args []Value, bindings []Value) Value {
